@@ -240,6 +240,7 @@ let run_hist hfn zh (tys : string) (vals : string) (route : string) (ops : strin
        let hd = List.nth m.hm.m_handles (int_of_string h) in
        m.snaps <- (hd.h_back, habs m.hm.m_store hd.h_back) :: m.snaps;
        add key "OK"
+     | L [A "reinit"] | L [A "reinitx"] -> add key "OK"
      | L [A "memo"] -> add key (if check_memos hfn m then "OK" else "STALE")
      | L [A "count"; A h] ->
        let i = int_of_string h in
